@@ -105,4 +105,5 @@ Step ==
 Next == Step
 Holds == bad = {}
 NoDrift == drift = {}
+Small == [tid |-> tid, i |-> i, bad |-> bad, drift |-> drift]
 =============================================================================
